@@ -484,6 +484,7 @@ pub struct Lexer<R, A> {
     state: State,
     buffer: String,
     eof: bool,
+    line_break: bool,
 
     marker: PhantomData<A>,
 }
@@ -511,6 +512,7 @@ impl<R: Read, A> Lexer<R, A> {
             state: State::Initial,
             buffer: String::new(),
             eof: false,
+            line_break: false,
             marker: PhantomData,
         }
     }
@@ -605,8 +607,12 @@ impl<R: Read, A: ArchTokens> Iterator for Lexer<R, A> {
                             return None;
                         }
                         self.eof = true;
-                        self.loc.line += 1;
-                        self.loc.column = 0;
+                        if self.line_break {
+                            self.line_break = false;
+                            self.loc.line += 1;
+                            self.loc.column = 0;
+                        }
+                        self.loc.column += 1;
                         '\n'
                     }
                     Some(Err(e)) => {
@@ -616,11 +622,14 @@ impl<R: Read, A: ArchTokens> Iterator for Lexer<R, A> {
                         }));
                     }
                     Some(Ok(c)) => {
-                        self.loc.column += 1;
-                        if c == '\n' {
+                        // a line break belongs to the line it ends
+                        if self.line_break {
+                            self.line_break = false;
                             self.loc.line += 1;
                             self.loc.column = 0;
                         }
+                        self.loc.column += 1;
+                        self.line_break = c == '\n';
                         c
                     }
                 },
